@@ -20,10 +20,12 @@ LAYOUTS_T = LAYOUTS_Q + ['bbb_a2', 'tears_a1', 'tears_v1', 'syn_long_first', 'sy
 ASSUMPTIONS = [
     'indexing: a parsed file is ftyp, moov, then k in 2..4 (quick) fragments moof+mdat (optionally followed by sidx/free), atoms tile the file (position_{i+1} = position_i + size_i); sizes, sample durations, first sequence number and first decode time are symbolic',
     'vod addressing: catalogue layouts with a symbolic startNumber (0 .. 2**31) and symbolic requested number',
+    'vod-xref: the stream timing reference has the representation\'s timescale and a symbolic media duration in (stored duration - last segment, stored duration]',
     'the moov box handed to Representation.load is the parsed moov of tests/fixtures/bbb/bbb_v7.mp4',
 ]
 OUTSIDE = ['manifest templates (which attribute prints which value)', 'on-demand byte ranges beyond C13',
-           'layouts outside the catalogue for $Time$ addressing']
+           'layouts outside the catalogue for $Time$ addressing',
+           'vod timelines when the timing reference is longer than the representation or shorter by more than its last segment (the listed entry count then differs from the stored count on the unchanged tree; not triaged)']
 
 
 def bounds(tier):
